@@ -472,3 +472,50 @@ def check_codes(ctx, rid, prop):
     r.stat('entries', len(tab))
     r.floor(found, max(1, int(len(tab) * 0.8)), 'reviewed error sites found in the tree')
     return r
+
+
+# ------------------------------------------------------------------------------------------------ initialiser census
+
+INITS = os.path.join(HERE, 'rules', 'inits.json')
+
+
+def init_atoms(F, f, adt):
+    """field -> '+'-joined operand atoms, for every aggregate construction of `adt` in f (list per field)"""
+    out = {}
+    a = F.adts.get(adt)
+    if not a:
+        return out
+    names = [x[0] for x in a['variants'][0]['fields']]
+    for bi, si, pl, rv, ln in f.stmts():
+        if rv[0] == 'aggr' and rv[1] == 'adt' and core.norm(rv[2]) == adt:
+            for nm, o in zip(names, rv[3]):
+                out.setdefault(nm, []).append('+'.join(sorted(operand_atoms(f.expr_of_op(o)))) or '-')
+    return out
+
+
+def check_inits(ctx, rid, prop):
+    r = ctx.rule(rid, 'FLOW', 'initialiser census: reviewed configuration / limit fields are still initialised from their reviewed source (plumbing of builder settings and protocol defaults)')
+    F = ctx.facts
+    with open(INITS) as fh:
+        tab = [e for e in json.load(fh) if prop in e['props']]
+    found = 0
+    cache = {}
+    for e in tab:
+        f = F.fn(e['fn'])
+        if f is None:
+            r.ok('absent|%s|%s' % (e['fn'], e['field']), '', 'function not present in this configuration (not a violation)')
+            continue
+        k = (e['fn'], e['adt'])
+        if k not in cache:
+            cache[k] = init_atoms(F, f, e['adt'])
+        got = cache[k].get(e['field'])
+        if not got:
+            r.ok('absent|%s|%s' % (e['fn'], e['field']), f.file, 'construction not found (restructured?) — not a violation')
+            continue
+        found += 1
+        ok = all(g == e['atoms'] for g in got)
+        r.check(ok, 'init|%s|%s.%s' % (e['fn'].replace('proto::streams::', ''), e['adt'].rsplit('::', 1)[-1], e['field']), f.file,
+                '%s initialises %s.%s from %s (reviewed: %s). %s' % (e['fn'].split('::')[-1], e['adt'].rsplit('::', 1)[-1], e['field'], got, e['atoms'], e['why']))
+    r.stat('entries', len(tab))
+    r.floor(found, max(1, int(len(tab) * 0.8)), 'reviewed initialisers found in the tree')
+    return r
